@@ -170,6 +170,9 @@ func (c *IPClient) measureClockOffsetIP(ctx context.Context, mtrcs *ipClientMetr
 		nts.EncodePacket(&buf, &ntsreq)
 	}
 
+	// Fallback for a missing kernel tx timestamp: a reading that is not after the
+	// transmission, so that the client's timestamps still enclose the exchange.
+	cTxTimeFallback := timebase.Now()
 	n, err := conn.WriteToUDPAddrPort(buf, remoteAddr.AddrPort())
 	if err != nil {
 		return time.Time{}, 0, err
@@ -179,7 +182,7 @@ func (c *IPClient) measureClockOffsetIP(ctx context.Context, mtrcs *ipClientMetr
 	}
 	cTxTime1, id, err := udp.ReadTXTimestamp(conn)
 	if err != nil || id != 0 {
-		cTxTime1 = timebase.Now()
+		cTxTime1 = cTxTimeFallback
 		c.Log.LogAttrs(ctx, slog.LevelError, "failed to read packet tx timestamp", slog.Any("error", err))
 	}
 	mtrcs.reqsSent.Inc()
